@@ -287,8 +287,15 @@ func c12Run(rc *simrt.RunCtx) {
 		for rc.Now() < bound && !(isClosed(g) && tr.pending() == 0) {
 			time.Sleep(50 * time.Millisecond)
 		}
-		if !isClosed(g) || tr.pending() > 0 {
-			rc.Violate("c12.peer-hangs", name+"/"+phase+"/"+transport, "%v after the other side closed (transport %s, keepalive %v) the %s is closed=%v with %d application calls still blocked", rc.Now()-tClose, transport, keepalive, name, isClosed(g), tr.pending())
+		closed, pn := isClosed(g), tr.pending()
+		if closed && pn > 0 {
+			// a call that is just returning its error is still counted for
+			// an instant; look again
+			time.Sleep(200 * time.Millisecond)
+			pn = tr.pending()
+		}
+		if !closed || pn > 0 {
+			rc.Violate("c12.peer-hangs", name+"/"+phase+"/"+transport, "%v after the other side closed (transport %s, keepalive %v) the %s is closed=%v with %d application calls still blocked", rc.Now()-tClose, transport, keepalive, name, closed, pn)
 			return
 		}
 		rc.Probe("c12.peer-notified")
